@@ -10,7 +10,7 @@ use crate::kernel::*;
 
 fn da_describe(_prop: &str) -> EngineDescription {
     EngineDescription {
-        rule: "Seeded streams of 8–64 transactions (Script, Create, Mint, Upgrade, Upload, Blob; inputs of all seven variants, outputs of all five; addresses, asset ids, contract ids, script and predicate code, UTXOs and messages drawn from small per-run pools so they repeat; every skipped field filled with a non-default value) are compressed with the derived compress_with into one SimRegistry whose five key cursors start a seeded distance below RegistryKey::MAX_WRITABLE over a pre-populated low key range, travel as postcard bytes, and are decompressed block-wise (1–4 transactions polled in a seeded interleaving over one shared context) against the registry snapshot of their block, 0–4 blocks later. Faults: k-th registry call of a compression fails before or after its write (error must surface unchanged, registry rolled back, transaction re-queued 0–3 places later and acknowledged at the first fault-free attempt), compression future dropped after p polls, k-th call of a block decompression fails, every call pends 0–3 times. Oracle per acknowledged transaction: same kind, witnesses, per-input predicate_gas_used, equality with the original in which exactly the 23 compress(skip) field sites are defaulted and coin/message data restored from the chain tables (value and canonical bytes), same id; plus RegistryKey::next against a successor model, immediate re-compression idempotence, whole-stream second pass unchanged when nothing was evicted, interleaved == sequential. A run is non-trivial when a registry key is reused by a later transaction and (a key cursor wrapped or an injected fault fired); distinct = distinct event digests among non-trivial runs.".into(),
+        rule: "Seeded streams of 8–64 transactions (Script, Create, Mint, Upgrade, Upload, Blob; inputs of all seven variants, outputs of all five; addresses, asset ids, contract ids, script and predicate code, UTXOs and messages drawn from small per-run pools so they repeat; every skipped field filled with a non-default value) are compressed with the derived compress_with into one SimRegistry whose five key cursors start a seeded distance below RegistryKey::MAX_WRITABLE, or a few keys below a carry into the middle or top key byte, over a pre-populated low key range (one transaction in 48 carries one list — inputs, outputs, witnesses, storage slots or proof set — of 254–300 items), travel as postcard bytes, and are decompressed block-wise (1–4 transactions polled in a seeded interleaving over one shared context) against the registry snapshot of their block, 0–4 blocks later. Faults: k-th registry call of a compression fails before or after its write (error must surface unchanged, registry rolled back, transaction re-queued 0–3 places later and acknowledged at the first fault-free attempt), compression future dropped after p polls, k-th call of a block decompression fails, every call pends 0–3 times. Oracle per acknowledged transaction: same kind, witnesses, per-input predicate_gas_used, equality with the original in which exactly the 23 compress(skip) field sites are defaulted and coin/message data restored from the chain tables (value and canonical bytes), same id; plus RegistryKey::next against a successor model, immediate re-compression idempotence, whole-stream second pass unchanged when nothing was evicted, interleaved == sequential. A run is non-trivial when a registry key is reused by a later transaction and (a key cursor wrapped or an injected fault fired); distinct = distinct event digests among non-trivial runs.".into(),
         real_components: vec![
             "fuel_compression::RegistryKey (next, as_u32, TryFrom<u32>, DEFAULT_VALUE, MAX_WRITABLE)".into(),
             "derive(Compress, Decompress) output for Transaction, Script/Create/Upgrade/Upload/Blob bodies, ChargeableTransaction, Input, Output, Contract input/output, Witness, StorageSlot, TxPointer, UpgradePurpose, Empty<T>; derive(Compress) for Coin<S>, Message<S>, Mint".into(),
